@@ -255,7 +255,7 @@ def shard_columns(sh, part, parts):
     counters = Counter()
     rng, nprng = sh.rng('cols', part), sh.nprng('cols', part)
     thresholds = [1, 2, 4, 8, 16, 32, 64, 96, 0.01, 0.02, 0.04, 0.08, 0.16, 0.32, 0.64, 0.96]
-    reps = 6 if sh.tier == 'quick' else 30
+    reps = 6 if sh.tier == 'quick' else 150
     presets = ['fw-transformers', 'default', 'minimal', 'minimal,default', 'default,fw-transformers']
     t = 0
     for rep in range(reps):
